@@ -409,7 +409,15 @@ class GridBase(metaclass=ABCMeta):
         """str: JSON-serialized version of the state of this grid"""
         state = self.state
         state["class"] = self.__class__.__name__
-        return json.dumps(state)
+
+        def convert(obj):
+            """Convert numpy scalars that were passed to the constructor."""
+            if isinstance(obj, np.generic):
+                return obj.item()
+            msg = f"Object of type {obj.__class__.__name__} is not JSON serializable"
+            raise TypeError(msg)
+
+        return json.dumps(state, default=convert)
 
     def copy(self) -> GridBase:
         """Return a copy of the grid."""
